@@ -8,6 +8,7 @@ Open Scope Z_scope.
 Record c09_case := {
   cc_body : mnodes;
   cc_end : endk;
+  cc_wf : bool;               (* false: the tree contains a native write outside any action (finding C09-1) *)
   cc_ok : bool;               (* receipt status: !res.Failed() *)
   cc_nat : list Z;            (* markers whose native effect is present afterwards (any order) *)
   cc_logs : list Z;           (* receipt logs in emission order *)
@@ -15,8 +16,8 @@ Record c09_case := {
   cc_evs : list Z             (* markers to which an emitted sdk event is attributable (distinct) *)
 }.
 
-Definition mk_c09_case b e ok nat logs stor evs : c09_case :=
-  {| cc_body := b; cc_end := e; cc_ok := ok; cc_nat := nat; cc_logs := logs; cc_stor := stor; cc_evs := evs |}.
+Definition mk_c09_case b e wf ok nat logs stor evs : c09_case :=
+  {| cc_body := b; cc_end := e; cc_wf := wf; cc_ok := ok; cc_nat := nat; cc_logs := logs; cc_stor := stor; cc_evs := evs |}.
 
 Definition zmem (x : Z) (l : list Z) : bool := existsb (Z.eqb x) l.
 Definition subset (a b : list Z) : bool := forallb (fun x => zmem x b) a.
@@ -38,6 +39,11 @@ Definition agrees (r : st mstore * bool) (c : c09_case) : bool :=
 
 (* true = the model disagrees with the implementation (or the harness printed an ill-formed tree) *)
 Definition c09_mismatch (c : c09_case) : bool :=
-  negb (wf_fl meff (cc_body c) &&
-        agrees (m_run_impl (cc_body c) (cc_end c)) c &&
-        agrees (m_run_spec (cc_body c) (cc_end c)) c).
+  if cc_wf c then
+    negb (wf_fl meff (cc_body c) &&
+          agrees (m_run_impl (cc_body c) (cc_end c)) c &&
+          agrees (m_run_spec (cc_body c) (cc_end c)) c)
+  else
+    (* a tree that breaks W1: only the transcription of the journal is expected to reproduce what the
+       implementation did (the specification is not) *)
+    negb (agrees (m_run_impl (cc_body c) (cc_end c)) c).
